@@ -27,7 +27,7 @@ TRUSTED_BASE = BASE_TRUSTED + [
     'int() of a dyadic int expression and math.factorial are translated to Z.quot / a Z product (py2coq); '
     'valid for |values| < 2**52 and non-negative factorial arguments, exercised by the kernel correspondence',
 ]
-RULE = ('index lists: the three _generate_indices outputs are enumerated completely (3 x 120 positions) against the model and '
+RULE = ('recovery cases include data scaled to 1e-11 / 1e-13 (homogeneity of the fit); index lists: the three _generate_indices outputs are enumerated completely (3 x 120 positions) against the model and '
         'against the published rule evaluated in Coq; kernels: every supported (n, m) of the three lists x seeded r in [0,1] '
         '(incl. 0 and 1), phi in [-pi, pi]; poly/objective/fit: seeded coefficient vectors of length 1..37 (and up to 120 for '
         'poly), sample sets of >= 2N+10 points uniform in the unit disk; lenses from tools/lensgen.simple_spec for ZernikeOPD. '
@@ -178,6 +178,17 @@ def _design(C, N, x, y):
                      for (n, m) in inst.indices[:N]]).T
 
 
+def _safe_fit(x, y, z, fam, N):
+    """coefficients of the real ZernikeFit (an exception or a wrong length is reported as an empty vector)"""
+    zk = _zk()
+    try:
+        fit = zk.ZernikeFit(x, y, z, fam, N)
+        c = np.asarray(fit.coeffs, dtype=float).ravel()
+        return (c if len(c) == N else np.zeros(0)), fit, None
+    except Exception as e:
+        return np.zeros(0), None, f'{type(e).__name__}: {str(e)[:120]}'
+
+
 def fit_case(rng, fam, cls, N, scale=1.0, M=None):
     """one exact-data fitting case on the real implementation"""
     zk = _zk()
@@ -186,24 +197,36 @@ def fit_case(rng, fam, cls, N, scale=1.0, M=None):
     x, y = _disk_points(rng, M)
     c0 = np.array([rng.uniform(-1, 1) for _ in range(N)]) * scale
     z = np.asarray(C(list(c0)).poly(np.sqrt(x ** 2 + y ** 2), np.arctan2(y, x)), dtype=float)
-    fit = zk.ZernikeFit(x, y, z, fam, N)
-    return {'family': fam, 'N': N, 'M': M, 'x': x, 'y': y, 'z': z, 'c0': c0, 'chat': np.asarray(fit.coeffs, dtype=float),
+    chat, fit, raised = _safe_fit(x, y, z, fam, N)
+    return {'family': fam, 'N': N, 'M': M, 'x': x, 'y': y, 'z': z, 'c0': c0, 'chat': chat, 'raised': raised,
             'fit': fit, 'cond': float(np.linalg.cond(_design(C, N, x, y)))}
+
+
+def _fit_witness(c, err):
+    """witness of a failed recovery; `recovered_all_zero` + `data_max_abs` identify the known small-data class"""
+    return {'kind': 'fit-does-not-recover', 'family': c['family'], 'call_site': 'ZernikeFit._fit',
+            'call': f'ZernikeFit(x, y, z, "{c["family"]}", {c["N"]}).coeffs', 'N': c['N'], 'M': c['M'],
+            'x': c['x'].tolist(), 'y': c['y'].tolist(), 'c0': c['c0'].tolist(), 'recovered': c['chat'].tolist(),
+            'recovered_all_zero': bool(len(c['chat']) == c['N'] and not np.any(c['chat'])),
+            'data_max_abs': float(np.max(np.abs(c['z']))) if c['z'].size else 0.0,
+            'relative_error': err, 'design_condition_number': c['cond'], 'raised': c.get('raised')}
+
+
+def _fit_err(c):
+    sc = max(1e-300, float(np.max(np.abs(c['c0']))))
+    return float(np.max(np.abs(c['chat'] - c['c0'])) / sc) if len(c['chat']) == c['N'] else float('inf')
 
 
 def oracle_fit(rng, trials=12, tol=1e-6):
     for t in range(trials):
         fam, cls, short = FAMS[t % 3]
         N = rng.choice([1, 2, 3, 5, 8, 12, 22, 36, 37])
-        c = fit_case(rng, fam, cls, N, scale=rng.choice([1.0, 30.0, 1e-2]))
+        c = fit_case(rng, fam, cls, N, scale=rng.choice([1.0, 30.0, 1e-2, 1e-11]))
         if c['cond'] > 1e6:
             continue
-        sc = max(1e-300, float(np.max(np.abs(c['c0']))))
-        err = float(np.max(np.abs(c['chat'] - c['c0'])) / sc) if len(c['chat']) == N else float('inf')
+        err = _fit_err(c)
         if not err <= tol:
-            return {'kind': 'fit-does-not-recover', 'family': fam, 'call': f'ZernikeFit(x, y, z, "{fam}", {N}).coeffs',
-                    'N': N, 'M': c['M'], 'x': c['x'].tolist(), 'y': c['y'].tolist(), 'c0': c['c0'].tolist(),
-                    'recovered': c['chat'].tolist(), 'relative_error': err, 'design_condition_number': c['cond']}
+            return _fit_witness(c, err)
     return None
 
 
@@ -219,11 +242,11 @@ def oracle_fit_linear(rng, trials=6, tol=1e-6):
         a, b = rng.uniform(-2, 2), rng.uniform(-2, 2)
         if np.linalg.cond(_design(getattr(zk, cls), N, x, y)) > 1e6:
             continue
-        f1 = np.asarray(zk.ZernikeFit(x, y, z1, fam, N).coeffs, dtype=float)
-        f2 = np.asarray(zk.ZernikeFit(x, y, z2, fam, N).coeffs, dtype=float)
-        f3 = np.asarray(zk.ZernikeFit(x, y, a * z1 + b * z2, fam, N).coeffs, dtype=float)
-        sc = 1 + float(np.max(np.abs(f3)))
-        err = float(np.max(np.abs(f3 - (a * f1 + b * f2))) / sc)
+        f1, f2, f3 = (_safe_fit(x, y, zz, fam, N)[0] for zz in (z1, z2, a * z1 + b * z2))
+        if len(f1) == len(f2) == len(f3) == N:
+            err = float(np.max(np.abs(f3 - (a * f1 + b * f2))) / (1 + float(np.max(np.abs(f3)))))
+        else:
+            err = float('inf')
         if not err <= tol:
             return {'kind': 'fit-not-linear-in-data', 'family': fam, 'call': f'ZernikeFit(x, y, a*z1+b*z2, "{fam}", {N}).coeffs',
                     'N': N, 'a': a, 'b': b, 'x': x.tolist(), 'y': y.tolist(), 'z1': z1.tolist(), 'z2': z2.tolist(),
@@ -404,11 +427,16 @@ def check_fit(ctx):
         for N in Ns:
             c = fit_case(rng, fam, cls, N, scale=rng.choice([1.0, 1.0, 25.0, 1e-2]))
             rec_cases.append(c)
+            if N in (5, 36):        # homogeneity: the same kind of data at a very small magnitude
+                rec_cases.append(fit_case(rng, fam, cls, N, scale=rng.choice([1e-11, 1e-13])))
             if len(obj_cases) < ctx.n(9, 60) and N <= 12:
                 ct = [rng.uniform(-1, 1) for _ in range(N)]
                 M0 = min(c['M'], 12)
-                fit = zk.ZernikeFit(c['x'][:M0], c['y'][:M0], c['z'][:M0], fam, N)
-                ov = [float(v) for v in np.ravel(fit._objective(np.array(ct)))]
+                try:
+                    fit = zk.ZernikeFit(c['x'][:M0], c['y'][:M0], c['z'][:M0], fam, N)
+                    ov = [float(v) for v in np.ravel(fit._objective(np.array(ct)))]
+                except Exception:
+                    ov = [float('nan')] * M0
                 pts = '[' + '; '.join(f'({vlib.fhex(a)}, {vlib.fhex(b)})' for a, b in zip(c['x'][:M0], c['y'][:M0])) + ']'
                 obj_lines.append(f'close_list {vlib.fhex(1e-8)} (@zk_objective FOps (k_zk_term_{short} FOps) {vlib.flist(ct)} '
                                  f'{short}_indices (map (@zk_polar FOps) {pts}) {vlib.flist(c["z"][:M0])}) {vlib.flist(ov)}')
@@ -437,10 +465,8 @@ def check_fit(ctx):
         a, b = rng.uniform(-2, 2), rng.uniform(-2, 2)
         if np.linalg.cond(_design(getattr(zk, cls), N, x, y)) > 1e6:
             continue
-        f1 = np.asarray(zk.ZernikeFit(x, y, z1, fam, N).coeffs, dtype=float)
-        f2 = np.asarray(zk.ZernikeFit(x, y, z2, fam, N).coeffs, dtype=float)
-        f3 = np.asarray(zk.ZernikeFit(x, y, a * z1 + b * z2, fam, N).coeffs, dtype=float)
-        sc = 1 + float(np.max(np.abs(f3)))
+        f1, f2, f3 = (_safe_fit(x, y, zz, fam, N)[0] for zz in (z1, z2, a * z1 + b * z2))
+        sc = 1 + (float(np.max(np.abs(f3))) if len(f3) else 0.0)
         lin_cases.append({'family': fam, 'N': N, 'a': a, 'b': b, 'x': x.tolist(), 'y': y.tolist(), 'z1': z1.tolist(), 'z2': z2.tolist()})
         lin_lines.append(f'close_list {vlib.fhex(1e-6)} {vlib.flist(f3 / sc)} {vlib.flist((a * f1 + b * f2) / sc)}'
                          if len(f3) == len(f1) == len(f2) == N else 'false')
@@ -459,13 +485,7 @@ def check_fit(ctx):
                 tgt['disagreements'].append(dict(obj_cases[start + i], kind='objective-model-mismatch', violates_property=False))
             elif kind == 'rec':
                 c = rec_cases[i]
-                sc = max(1e-300, float(np.max(np.abs(c['c0']))))
-                tgt['disagreements'].append({
-                    'kind': 'fit-does-not-recover', 'violates_property': True, 'family': c['family'],
-                    'call': f'ZernikeFit(x, y, z, "{c["family"]}", {c["N"]}).coeffs', 'N': c['N'], 'M': c['M'],
-                    'x': c['x'].tolist(), 'y': c['y'].tolist(), 'c0': c['c0'].tolist(), 'recovered': c['chat'].tolist(),
-                    'relative_error': float(np.max(np.abs(c['chat'] - c['c0'])) / sc) if len(c['chat']) == c['N'] else None,
-                    'design_condition_number': c['cond']})
+                tgt['disagreements'].append(dict(_fit_witness(c, _fit_err(c)), violates_property=True))
             else:
                 tgt['disagreements'].append(dict(lin_cases[i], kind='fit-not-linear-in-data', violates_property=True,
                                                  call='ZernikeFit(x, y, a*z1+b*z2, family, N).coeffs'))
@@ -564,9 +584,28 @@ def check_opd(ctx):
     return [out]
 
 
+def check_oracles(ctx):
+    """the property stated directly on the implementation (independent Python statement), run on every check so that a
+    broken proof / correspondence always comes with a concrete failing input when one exists"""
+    rng = random.Random(ctx.seed + 77)
+    out = {'name': 'property_oracles_on_implementation', 'n': 0, 'nontrivial': 0, 'samples': [], 'disagreements': [],
+           'note': 'index rules x3 (360 positions), R(1)=1 (360), Gram matrices Standard/Noll (2 x 120 x 120 by exact '
+                   'quadrature), poly linearity (30), fit recovery (12), fit linearity (6)'}
+    for name, f, n in (('indices', oracle_indices, 360), ('edge', oracle_edge, 360), ('orthonormal', oracle_orthonormal, 28800),
+                       ('poly-linear', lambda: oracle_linear(rng), 30), ('fit-recovers', lambda: oracle_fit(rng), 12),
+                       ('fit-linear', lambda: oracle_fit_linear(rng), 6)):
+        w = f()
+        out['n'] += n
+        out['nontrivial'] += n
+        if w:
+            out['disagreements'].append(dict(w, violates_property=True, oracle=name))
+    out['samples'].append({'oracle': 'orthonormal', 'quadrature': '48 Gauss-Legendre nodes in r x 96 equispaced in phi'})
+    return [out]
+
+
 def system_checks(ctx):
     out = []
-    for f in (check_indices, check_poly, check_fit, check_opd):
+    for f in (check_indices, check_poly, check_fit, check_opd, check_oracles):
         out.extend(f(ctx))
     return out
 
@@ -585,16 +624,17 @@ def search(ctx, broken, disagreements):
     return None
 
 
-def _findings_key(w):
-    return (w.get('kind'), w.get('family'), w.get('call'))
-
-
 def matches_finding(w, f):
+    """exact-match on the keys of f['match']; `<key>_below` is an upper bound on the numeric field <key>"""
     m = f.get('match', {})
     if not m:
         return False
     for k, v in m.items():
-        if w.get(k) != v:
+        if k.endswith('_below'):
+            x = w.get(k[:-6])
+            if not (isinstance(x, (int, float)) and x < v):
+                return False
+        elif w.get(k) != v:
             return False
     return True
 
@@ -602,6 +642,12 @@ def matches_finding(w, f):
 def replay_finding(ctx, f):
     m = f.get('match', {})
     kind = m.get('kind')
+    if kind == 'fit-does-not-recover':
+        rng = random.Random(12345)
+        fam, cls, short = FAMS[2]
+        c = fit_case(rng, fam, cls, 5, scale=1e-11)
+        err = _fit_err(c)
+        return bool(err > 1e-6 and matches_finding(_fit_witness(c, err), f))
     if kind == 'index-rule':
         w = oracle_indices()
     elif kind == 'edge-value':
@@ -614,4 +660,5 @@ def replay_finding(ctx, f):
 
 
 def broken_explained(b, known, witnesses):
-    return False
+    # a listed finding only explains the numerical fit check it was found by, never a proof or a kernel/model tie
+    return b.get('kind') == 'model-correspondence' and b.get('check') == 'fit_recovers_exact_data' and False
